@@ -54,7 +54,7 @@ G2 == {x \in [g : {"signal"}, len : 1..L, sig : {"break", "continue"}, at : 1..L
               off : {None, 1}, lim : {None, 2}] : x.at <= x.len}
 G3 == [g : {"range"}, lo : (0 - 2)..3, hi : (0 - 3)..4, rev : BOOLEAN, lim : {None, 2}]
 G4 == [g : {"tablerow"}, len : 0..L, cols : {None} \cup (0..(L + 1)), lim : {None, 3}]
-G5 == [g : {"coll"}, coll : {"nil", "undef", "empty", "map0", "map1", "map3"}]
+G5 == [g : {"coll"}, coll : {"nil", "undef", "empty", "map0", "map1", "map3", "nilmap", "nilslice", "nilptr", "dropnil", "dropempty"}]
 G6 == [g : {"cycle"}, len : 1..L, nvals : 1..3, grouped : BOOLEAN, twice : BOOLEAN]
 G7 == {x \in [g : {"nest"}, outer : 1..3, inner : 1..3, sig : {"break", "continue"}, at : 1..3] : x.at <= x.inner}
 \* a loop containing a cycle is itself executed several times (nested in another loop): each execution starts afresh
@@ -119,7 +119,9 @@ EnvOf2(x) ==
     [] x.g = "coll" -> (CASE x.coll = "nil" -> << <<A, Nil>> >>
                           [] x.coll = "undef" -> <<>>
                           [] x.coll = "empty" -> << <<A, Arr(<<>>)>> >>
-                          [] x.coll = "map0" -> << <<A, MapN(0)>> >>
+                          [] x.coll \in {"map0", "nilmap"} -> << <<A, MapN(0)>> >>
+                          [] x.coll \in {"nilslice", "dropempty"} -> << <<A, Arr(<<>>)>> >>
+                          [] x.coll \in {"nilptr", "dropnil"} -> << <<A, Nil>> >>
                           [] x.coll = "map1" -> << <<A, MapN(1)>> >>
                           [] x.coll = "map3" -> << <<A, MapN(3)>> >>)
     [] OTHER -> <<>>
@@ -161,7 +163,7 @@ DeclOut(x) ==
                         \o (IF k % cols = 0 \/ k = n THEN TrClose ELSE <<>>)
          IN  Flatten([k \in 1..n |-> cell(k)])
     [] x.g = "coll" ->
-         (CASE x.coll \in {"nil", "undef", "empty", "map0"} -> <<69>>
+         (CASE x.coll \in {"nil", "undef", "empty", "map0", "nilmap", "nilslice", "nilptr", "dropnil", "dropempty"} -> <<69>>
             [] x.coll = "map1" -> <<91, 107, 58>> \o IntText(1) \o <<58>> \o IntText(1) \o <<93>>
             [] x.coll = "map3" -> Flatten([i \in 1..3 |-> <<91, 106 + i, 58>> \o IntText(i) \o <<58>> \o IntText(i) \o <<93>>]))
     [] x.g = "cycle" ->
@@ -224,5 +226,8 @@ IdOf(x) ==
 
 EmitCase == st.status # "run" =>
           PrintT(ToJson([id |-> IdOf(c), kind |-> "render", prog |-> ProgOf(c), env |-> EnvOf2(c),
-                         anyorder |-> IF c.g = "coll" /\ c.coll = "map3" THEN 3 ELSE 0]))
+                         anyorder |-> IF c.g = "coll" /\ c.coll = "map3" THEN 3 ELSE 0]
+                        \* a nil or empty collection in its typed Go forms
+                        @@ (IF c.g = "coll" /\ c.coll \in {"nilmap", "nilslice", "nilptr", "dropnil", "dropempty"}
+                            THEN [repr |-> [a |-> IF c.coll \in {"dropnil", "dropempty"} THEN "drop" ELSE c.coll]] ELSE <<>>)))
 =============================================================================
